@@ -21,11 +21,11 @@ def run(v, tier, seed, wd):
         return
     # multi-process determinism: the same seeded campaign in three processes with different heap layouts / fill patterns
     rt = vlib.build_drv("drv_rt")
-    # the third process also starts in the middle of the campaign: whatever the library keeps per process (a value fixed by the first geometry it sees)
-    # has been set by other geometries than in the first two
+    # the third process also starts in the middle of the campaign, with its first mesh of more than 1200 faces: whatever the library keeps per process
+    # (a value fixed by the first geometry it sees) has been set by a geometry of another size class than in the first two
     ncases_ = 600 if quick else 6000
     envs = [("plain", {}, ""), ("perturb", {"MALLOC_PERTURB_": "165"}, "setarch -R "),
-            ("perturb2", {"MALLOC_PERTURB_": "90", "MALLOC_ARENA_MAX": "1", "VERIF_FROM_CASE": str(ncases_ // 3)}, "")]
+            ("perturb2", {"MALLOC_PERTURB_": "90", "MALLOC_ARENA_MAX": "1", "VERIF_FROM_BIG": "1"}, "")]
     runs = []
     ncases = 600 if quick else 6000
     for name, env, prefix in envs:
